@@ -433,3 +433,26 @@ package keeper
 //@   loop 1 invariant 0 <= $i && $i <= len(lastVals) && len(lastCosmosVals.Validators) == $i
 //@   loop 1 invariant forall j int :: 0 <= j && j < $i ==> lastCosmosVals.Validators[j].ConsensusPubkey == lastVals[j].ConsensusPubkey
 //@   assigns HistoricalInfos
+
+// ---- queries named by the properties -----------------------------------------------------------------------------------
+
+//@ func (Querier) NextL1Sequence
+//@   ensures err == nil && ret0.NextL1Sequence == seqOr1(NextL1Sequence)                                                                     // C06: next_sequence_query_is_one_plus_the_number_processed
+//@   assigns \nothing
+
+//@ func (Querier) NextL2Sequence
+//@   ensures err == nil && ret0.NextL2Sequence == seqOr1(NextL2Sequence)                                                                     // C09: next_l2_sequence_query
+//@   assigns \nothing
+
+//@ func (Querier) BaseDenom
+//@   ensures err == nil ==> DenomPairs[req.Denom] == Some(ret0.BaseDenom)                                                                    // C09: base_denom_query_reads_the_mapping
+//@   ensures DenomPairs[req.Denom] == None ==> err != nil                                                                                   // C09: unknown_denom_has_no_base
+//@   assigns \nothing
+
+//@ func (Querier) Params
+//@   ensures err == nil ==> Params == Some(ret0.Params)                                                                                     // C14: params_query
+//@   assigns \nothing
+
+//@ func (Querier) BridgeInfo
+//@   ensures err == nil ==> BridgeInfo == Some(ret0.BridgeInfo)                                                                             // C12: bridge_info_query
+//@   assigns \nothing
